@@ -76,6 +76,32 @@ def make(jobs: int = 16) -> tuple[bool, str, list[str]]:
     return rc == 0 and not failed, out, failed
 
 
+def dep_closure(target_v: str) -> set[str]:
+    """.v files the given .v file depends on (transitively, itself included), read from coq_makefile's .Makefile.d"""
+    deps: dict[str, list[str]] = {}
+    try:
+        with open(os.path.join(env.COQ, ".Makefile.d")) as f:
+            for line in f:
+                if ":" not in line:
+                    continue
+                lhs, rhs = line.split(":", 1)
+                heads = [h for h in lhs.split() if h.endswith(".vo")]
+                if not heads:
+                    continue
+                deps[heads[0][:-1]] = [d[:-1] for d in rhs.split() if d.endswith(".vo")]
+    except OSError:
+        return set(coq_files())
+    seen: set[str] = set()
+    todo = [target_v]
+    while todo:
+        v = todo.pop()
+        if v in seen:
+            continue
+        seen.add(v)
+        todo += deps.get(v, [])
+    return seen
+
+
 def driver_stale() -> bool:
     if not os.path.exists(env.DRIVER):
         return True
@@ -229,8 +255,11 @@ def full_build(pid: str | None = None) -> dict:
         info["make_ok"] = ok_m
         info["failed_files"] = failed
         info["make_log_tail"] = out_m[-3000:]
-        model_failed = [f for f in failed if f.startswith(("Model/", "Gen/", "Extract/"))]
+        # the extracted driver is built from Model/ only; generated files and proofs do not enter it
+        model_failed = [f for f in failed if f.startswith(("Model/", "Extract/"))]
         info["model_failed"] = model_failed
+        if pid:
+            info["closure"] = sorted(dep_closure(f"Props/{pid}.v"))
         if not model_failed and driver_stale():
             ok_d, out_d = build_driver()
             info["driver_ok"] = ok_d
